@@ -212,8 +212,9 @@ impl S3 for FileSystem {
             Some(range) => {
                 let file_range = range.check(file_len)?;
                 let content_length = file_range.end - file_range.start;
-                let content_range = fmt_content_range(file_range.start, file_range.end - 1, file_len);
-                (file_range.start, content_length, Some(content_range))
+                // an empty object has no last byte position to report: a suffix range asked of it is served as the whole (empty) object
+                let content_range = (content_length > 0).then(|| fmt_content_range(file_range.start, file_range.end - 1, file_len));
+                (file_range.start, content_length, content_range)
             }
         };
         let content_length_usize = try_!(usize::try_from(content_length));
